@@ -31,6 +31,9 @@ H1 (direct calls of the real functions of $QMI_REPO, scratch data store under /v
              with foreign directory entries, against the model file system.  ORACLE: a returned folder
              did not exist before, no existing entry changes except the target of an overwrite=True
              write, the latest folder is the one with the greatest (date, time).
+H3 (dsched): 2-3 DataStore objects on one base directory in threads, make_folder with the same label / date / time
+  (and controls), every source line of make_folder a switch point.  ORACLE: exactly one caller per path gets the
+  folder, it is empty when handed out, every other caller gets FileExistsError.
 H3 (dsched): the real HDF5Recorder (real h5py inside the managed recorder thread) with 1-3 recording
   threads, virtual write interval, switch points at every synchronisation operation and — in
   half of the runs — at every source line of run() / record() / set_attribute().  The
@@ -1109,6 +1112,112 @@ def do_store(cx, nhist):
 
 
 # =========================================================================================
+# H3: several users of one base directory asking for the same folder
+# =========================================================================================
+def mkf_scenario(s, base, plans):
+    """Forked child under dsched.  plans: per thread [(label, date_str, time_str)]; every thread has its OWN DataStore
+    object on the same base directory; every source line of make_folder is a switch point."""
+    import threading as rt
+    from qmi.data.datastore import DataStore
+    obs = {"results": [[] for _ in plans]}
+    s.obs = obs
+    s.recording = False
+    os.makedirs(base, exist_ok=True)
+    dsched.enable_line_yields([DataStore.make_folder])
+
+    def worker(k):
+        store = DataStore(base)
+        for (label, d, t) in plans[k]:
+            try:
+                f = store.make_folder(label, date_str=d, time_str=t)
+            except Exception as e:  # noqa
+                obs["results"][k].append(["err", type(e).__name__])
+                continue
+            rel = os.path.relpath(f.folder_path, base)
+            content = sorted(os.listdir(f.folder_path))     # a folder handed out as new must be empty
+            with open(os.path.join(f.folder_path, "owner_%d_%d" % (k, len(obs["results"][k]))), "w") as fh:
+                fh.write("x")
+            obs["results"][k].append(["ok", rel, content])
+
+    s.recording = True
+    ths = [rt.Thread(target=worker, args=(k,)) for k in range(len(plans))]
+    for th in ths:
+        th.start()
+    for th in ths:
+        th.join()
+    s.recording = False
+    return obs
+
+
+def mkf_oracle(plans, res):
+    if res["status"] != "ok":
+        return "status-" + res["status"], "scenario did not finish: %s" % str(res.get("trace") or res.get("info") or "")[:300]
+    by_path = {}
+    for k, p in enumerate(plans):
+        r = res["obs"]["results"][k]
+        if len(r) != len(p):
+            return "incomplete", "thread %d made %d of %d calls" % (k, len(r), len(p))
+        for (label, d, t), o in zip(p, r):
+            target = os.path.join(d, t + "_" + label)
+            by_path.setdefault(target, []).append((k, o))
+            if o[0] == "ok" and o[1] != target:
+                return "wrong-path", "make_folder(%r, %r, %r) returned %r" % (label, d, t, o[1])
+            if o[0] == "err" and o[1] != "FileExistsError":
+                return "exception-" + o[1], "make_folder(%r, %r, %r) raised %s" % (label, d, t, o[1])
+    for target, l in sorted(by_path.items()):
+        wins = [k for k, o in l if o[0] == "ok"]
+        if len(wins) > 1:
+            return "same-folder-twice", "%d users (threads %r, each with its own DataStore on the same base directory) were all handed " \
+                "%r as a NEW folder" % (len(wins), wins, target)
+        for k, o in l:
+            if o[0] == "ok" and o[2]:
+                return "not-empty", "the folder %r handed out as new already held %r" % (o[1], o[2])
+        if not wins:
+            return "nobody-got-it", "%d calls for %r, all refused" % (len(l), target)
+    return None
+
+
+def do_mkf_race(cx, nplans, nsched):
+    ck = cx.ck
+    rng = ck.rng
+    import qmi.data.datastore  # noqa
+    base0 = os.path.join(ck.scratch_dir(), "race")
+    os.makedirs(base0, exist_ok=True)
+    jobs, metas = [], []
+    for pi in range(nplans):
+        nth = rng.choice([2, 2, 3])
+        same = ("lab", "20240101", "120000")
+        plans = []
+        for k in range(nth):
+            p = []
+            for _ in range(rng.choice([1, 1, 2])):
+                r = rng.random()
+                p.append(same if r < 0.7 else (rng.choice(["lab", "lab2"]), "20240101", rng.choice(["120000", "120001"])) if r < 0.9
+                         else ("x", "20240102", "120000"))
+            plans.append(p)
+        for si in range(nsched):
+            kw = dict(strategy=rng.choice(["random", "random", "pct"]), seed=rng.randrange(1 << 30),
+                      switch_prob=rng.choice([0.35, 0.6]))
+            base = os.path.join(base0, "b%d_%d" % (pi, si))
+            jobs.append((mkf_scenario, (base, plans), kw))
+            metas.append((plans, base))
+    results = dsched.run_forked(jobs, nproc=16, wall_timeout=60.0)
+    for (plans, base), res in zip(metas, results):
+        shutil.rmtree(base, ignore_errors=True)
+        ck.count("mkf-race:threads=%d" % len(plans))
+        ck.count("mkf-race:status=" + res["status"])
+        ntarget = len({tuple(c) for p in plans for c in p})
+        ncalls = sum(len(p) for p in plans)
+        ck.count("mkf-race:%s" % ("contended" if ntarget < ncalls else "control"))
+        ck.note_case(("mkf-race", plans, tuple(res.get("choices") or ())), ntarget < ncalls)
+        bad = mkf_oracle(plans, res)
+        if bad:
+            ck.report("mkf-race:" + bad[0], "C17 fails on the implementation (concurrent make_folder): " + bad[1],
+                      {"kind": "mkfrace", "plans": plans, "schedule": res.get("choices"), "status": res["status"],
+                       "results": (res.get("obs") or {}).get("results")})
+
+
+# =========================================================================================
 # H3: recorder under the deterministic scheduler
 # =========================================================================================
 def rec_scenario(s, path, plans, write_interval, keep_open, line_level):
@@ -1483,7 +1592,9 @@ def run(ck):
         "recorder: a block is the VALUE passed to record() at the time of the call (ndarray of any layout, or list; a tuple is refused "
         "by the pinned code); set_attribute values are int / float / str as documented (mutable attribute values are outside)",
         "recorder: blocks passed to record() before close() is called; record()/set_attribute() concurrent with close() are outside",
-        "file-system races between processes are outside (single process, scratch directory)",
+        "make_folder by several users of one base directory: C17_make_folder_fresh is about sequential histories; the concurrent case "
+        "relies on the atomicity of os.mkdir (exclusive create) and is tied only by the schedules of the mkf-race bucket (2-3 DataStore "
+        "objects in threads, every source line of make_folder a switch point); races between processes are not run",
     ]
     cx = Ctx(ck)
     quick = ck.tier == "quick"
@@ -1500,6 +1611,7 @@ def run(ck):
         timed("layout", do_layout)
         timed("special", do_special)
         timed("store", do_store, 260 if quick else 6000)
+        timed("mkf-race", do_mkf_race, 14 if quick else 150, 10 if quick else 30)
         timed("recorder", do_recorder, 50 if quick else 600, 10 if quick else 40)
     finally:
         ck.cleanup()
@@ -1574,6 +1686,15 @@ def replay(rep):
                                     nproc=1, wall_timeout=60.0)[0]
             print("status:", res["status"], "file:", (res.get("obs") or {}).get("file"))
             bad = rec_oracle(plans, res)
+            print("oracle:", bad or "holds")
+            return 1 if bad else 0
+        if kind == "mkfrace":
+            import qmi.data.datastore  # noqa
+            plans = [[tuple(x) for x in p] for p in c["plans"]]
+            res = dsched.run_forked([(mkf_scenario, (os.path.join(scratch, "b"), plans),
+                                      dict(strategy="replay", schedule=list(c["schedule"] or [])))], nproc=1, wall_timeout=60.0)[0]
+            print("status:", res["status"], "results:", (res.get("obs") or {}).get("results"))
+            bad = mkf_oracle(plans, res)
             print("oracle:", bad or "holds")
             return 1 if bad else 0
         if kind == "special":
